@@ -23,6 +23,13 @@ def judge(ctx, cls, d, L, kl, rounds, M, bitlen=None):
     r = ctx.attempt(lambda: mk(d, key, L, rounds)(M) if bitlen is None else mk(d, key, L, rounds)(M, bitlen=bitlen))
     exp = RM.md6(d, M, bitlen, key=key, L=L, r=rounds)
     ctx.eq('C17/' + cls, r, ('ok', exp))
+    if len(M) <= 2049:
+        # second call on an object that already hashed another (two-level, non byte-aligned) message
+        def second():
+            o = mk(d, key, L, rounds)
+            o(b'\xa5' * 600, bitlen=4797)
+            return o(M) if bitlen is None else o(M, bitlen=bitlen)
+        ctx.eq('C17/' + cls + '/reused-object', ctx.attempt(second), ('ok', exp))
     if r[0] == 'ok':
         ctx.eq('C17/digest-size', len(r[1]), (d + 7) // 8)
 
@@ -99,6 +106,11 @@ def run_bits(ctx, pt):
 
 def pts_rounds(tier):
     pts = []
+    # the default round count 40+d/4 (max(80,.) only with a key) over the digest-size range, on short messages
+    for d in (1, 8, 64, 128, 159, 160, 161, 224, 320, 384, 512) if tier == 'thorough' else (8, 64, 128, 160, 384):
+        for kl in (0, 3):
+            for L in (64, 0):
+                pts.append((d, L, kl, 3, None))
     for d in (160, 256, 512) if tier == 'thorough' else (256,):
         for L in (64, 0, 1):
             for kl in (0, 8, 64):
@@ -127,7 +139,7 @@ def subchecks():
         Sub('shapes', pts_shapes, run_shapes, engine='P',
             bound='L in {0,1,2,3,64} x key length {0,1,8,63,64} x message byte length in {0..3, 383..385, 511..513, 767..769, 1023..1025, 1535..1537, 2047..2049, 5, 16, 17-, 64+, 65 leaf blocks} (quick: subset above 17 leaves / for odd key lengths) x d in 9 (4) sizes at lengths 3 and 513, 12 rounds'),
         Sub('bit-lengths', pts_bits, run_bits, engine='P', bound='every L\' mod 8 at 1, 512, 513, 2049, 2561 (thorough 8704) bytes in tree, sequential and hybrid mode; containers 7 bytes longer'),
-        Sub('rounds', pts_rounds, run_rounds, engine='P', bound='default round count 40+d/4 (max(80,.) with a key) and rounds 1, 5 (thorough 9, 40, 168) x L in {64,0,1} x key length {0,8,64} x 3-4 lengths'),
+        Sub('rounds', pts_rounds, run_rounds, engine='P', bound='default round count 40+d/4 (max(80,.) with a key) for d in {8,64,128,160,384} (thorough 11 sizes) keyed and unkeyed; rounds 1, 5 (thorough 9, 40, 168) x L in {64,0,1} x key length {0,8,64} x 3-4 lengths'),
     ]
 
 
